@@ -334,6 +334,14 @@ pub fn run(seed: u64, count: usize, max_n: usize, out: &mut impl Write) {
             }
         };
         if rng.chance(1, 3) { a.push(s("-s")); }
+        // symmetrization with a precomputed transpose (--transpose): the transpose is built
+        // with the CLI itself; if that fails the step is run without the option
+        if (which == 1 || which == 2) && rng.chance(1, 2) {
+            let base_t = dir.join("gt");
+            let et = exec(&[s("transform"), s("transpose"), p(&base0), p(&base_t), s("-t"), s("2")], None, 60);
+            let ee = if et.code == 0 { exec(&[s("build"), s("ef"), p(&base_t)], None, 60).code } else { 1 };
+            if et.code == 0 && ee == 0 { a.push(s("--transpose")); a.push(p(&base_t)); }
+        }
         a.extend(comp_args(&c3));
         let e = exec(&a, None, 60);
         cx.emit_set(name, &base3, &g3, &e, &c3, &format!("xsrc={} xop={}", fmt_lists(&g), xop));
